@@ -22,8 +22,8 @@ zerod   (always on, 10 % of the calls) a caller whose scalar options are 0-d arr
         float options (never `seed`) are 0-d arrays; afterwards those arrays must hold their values
         (an augmented assignment `p /= 2` on a parameter writes through to the caller's object).
         Flag kind option_array_modified, clause OptionArraysIntact.
-strict  (opt-in, 15 % of the calls) a caller who runs with np.seterr(all='raise'): the real call runs under
-        np.errstate(all='raise'); a routine that computes x/0 or 0/0 outside an errstate of its own then
+strict  (opt-in, 15 % of the calls) a caller who runs with np.seterr(divide='raise', invalid='raise'): the real call runs
+        under that errstate; a routine that computes x/0 or 0/0 outside an errstate of its own then
         raises FloatingPointError instead of returning, which the driver's Returns clause reports.
         Enabled only for the drivers whose routines are clean in this respect on the unchanged tree
         (not: signed modularity, null models, randomizer_bin_und, flow_coef_bd - see DESIGN 7).
@@ -190,7 +190,9 @@ def _wrap(name, f):
                 back = (A, buf)
             if _os.environ.get("VERIF_PROBE_RAISE") or (MODE["strict_fp"] and not quiet and RNG.random() < 0.15):
                 # a caller who runs with np.seterr(all='raise') (VERIF_PROBE_RAISE: every call, developer use)
-                with np.errstate(all="raise"):
+                # (divide and invalid only: underflow and overflow to 0 / inf are ordinary outcomes of
+                #  e.g. exp and products of tiny eigenvector entries and nobody's slip)
+                with np.errstate(divide="raise", invalid="raise"):
                     res = f(*args, **kw)
             elif quiet:
                 with np.errstate(all="ignore"):
